@@ -86,17 +86,19 @@ _INCR = {"U": [1, 1, 1, 1, 1, 1, 1, 1], "G": [1, 2, 4, 8, 16, 32, 64, 128],
          "E": [1, 1 + 3 * _E, 1 + _E, 1 + 5 * _E, 1 + 2 * _E, 1 + 7 * _E, 1 + 4 * _E, 1 + 6 * _E]}
 
 
-def length(kind, N):
-    """Domain length used with the (N, L) constructor form (spacing template "L")."""
-    return {"lin": 0.25 * N, "rad": 0.25 * N, "azi": 2 * math.pi, "pol": math.pi}[kind]
+def length(kind, N, axis=0):
+    """Domain length used with the (N, L) constructor form (spacing template "L").  Length-like axes get the
+    cell width 0.25 (1 + axis/2) - 0.25, 0.375, 0.5, all dyadic - so that dx, dy and dz differ on Cartesian grids
+    (and dr, dz on cylindrical ones): a term that takes the cell width of the wrong axis is not hidden by it."""
+    return {"lin": 0.25 * N * (1.0 + 0.5 * axis), "rad": 0.25 * N * (1.0 + 0.5 * axis), "azi": 2 * math.pi, "pol": math.pi}[kind]
 
 
-def faces(kind, N, sp, org=0):
+def faces(kind, N, sp, org=0, axis=0):
     """Face positions of one axis.  All lengths are dyadic; angles are multiples of pi/16
     or pi/20.  Template "L" stands for a mesh built with the (N, L) constructor form; its
     face positions are the equispaced ones that form is documented to produce."""
     if sp == "L":
-        return np.arange(N + 1) * (length(kind, N) / N)
+        return np.arange(N + 1) * (length(kind, N, axis) / N)
     inc = np.array(_INCR[sp][:N], dtype=float)
     if N > 8:
         inc = np.resize(np.array(_INCR[sp], dtype=float), N)
@@ -145,8 +147,8 @@ def spec_id(s):
 def spec_faces(s):
     kinds = AXES[s["cls"]]
     k = 2.0 ** s.get("scale", 0)
-    return [faces(kd, n, sp, s["org"]) * (k if kd in ("lin", "rad") else 1.0)
-            for kd, n, sp in zip(kinds, s["shape"], s["sp"])]
+    return [faces(kd, n, sp, s["org"], ax) * (k if kd in ("lin", "rad") else 1.0)
+            for ax, (kd, n, sp) in enumerate(zip(kinds, s["shape"], s["sp"]))]
 
 
 def make_mesh(s):
@@ -154,8 +156,8 @@ def make_mesh(s):
         kinds = AXES[s["cls"]]
         k2 = 2.0 ** s.get("scale", 0)
         return getattr(pf, s["cls"])(*[int(n) for n in s["shape"]],
-                                     *[length(k, n) * (k2 if k in ("lin", "rad") else 1.0)
-                                       for k, n in zip(kinds, s["shape"])])
+                                     *[length(k, n, ax) * (k2 if k in ("lin", "rad") else 1.0)
+                                       for ax, (k, n) in enumerate(zip(kinds, s["shape"]))])
     return getattr(pf, s["cls"])(*spec_faces(s))
 
 
